@@ -38,6 +38,9 @@ def r_kernel_shape(ctx, prog, kinds=None):
                 from .ir import PRINT_CALLS, verbosity_regions_pure
                 if i.callee in PRINT_CALLS and verbosity_regions_pure(f)[0]:
                     continue      # trace output of the OF_DEBUG build, under the trace level only (R-VERBOSITY)
+                g = prog.callee_fn(i) if i.callee else None
+                if g is not None and g.internal and g.unit is f.unit and _helper_shape_ok(prog, g):
+                    continue      # a static helper of the unit that itself satisfies the shape conditions (R-KEA interprets it)
                 bad, why = i, 'calls %s' % i.callee
             elif i.op in ('mul', 'udiv', 'sdiv', 'urem', 'srem', 'shl', 'lshr', 'ashr') and i.ty and i.ty.startswith('i'):
                 if i.op in ('mul',):
@@ -59,6 +62,21 @@ def r_kernel_shape(ctx, prog, kinds=None):
         okp = all(c and P % c == 0 for c in consts if c > 1)
         ctx.instance(R, okp, f, sp['name'] + ':period', '%s divides/shifts the size by %s: period does not divide %d' %
                      (sp['name'], sorted(consts), P))
+
+
+def _helper_shape_ok(prog, g, depth=0):
+    for i in g.all_insts():
+        if i.op in ('ptrtoint', 'inttoptr', 'switch'):
+            return False
+        if i.op == 'call':
+            h = prog.callee_fn(i) if i.callee else None
+            if h is None or not h.internal or depth >= 1 or not _helper_shape_ok(prog, h, depth + 1):
+                return False
+        if i.op in ('mul', 'udiv', 'sdiv', 'urem', 'srem', 'shl', 'lshr', 'ashr') and i.ty and i.ty.startswith('i'):
+            okc = (i.ops[0].k == 'c' or i.ops[1].k == 'c') if i.op == 'mul' else i.ops[1].k == 'c'
+            if not okc and not _is_data_op(i):
+                return False
+    return True
 
 
 def _is_data_op(i):
